@@ -217,7 +217,7 @@ def ensure_generated():
     """The generated model files must exist for coq_makefile's dependency scan, whichever check runs first (each check
     regenerates the ones its property depends on; this only fills in missing ones, e.g. when no setup was run)."""
     gen = os.path.join(COQ, "theories", "Model")
-    missing = [n for n in ("GenTables.v", "GenLib.v", "GenTemplates.v", "GenImp.v", "GenImpMacro.v", "GenImpLeg.v", "GenImpAttr.v", "GenImpFold.v", "GenImpParse.v", "GenImpBridge.v") if not os.path.exists(os.path.join(gen, n))]
+    missing = [n for n in ("GenTables.v", "GenLib.v", "GenTemplates.v", "GenImp.v", "GenImpMacro.v", "GenImpLeg.v", "GenImpAttr.v", "GenImpFold.v", "GenImpParse.v", "GenImpCheck.v", "GenImpBridge.v") if not os.path.exists(os.path.join(gen, n))]
     if not missing:
         return
     from . import translate, imp_translate
@@ -262,6 +262,8 @@ def coq_hygiene():
             path = os.path.join(root, fn)
             depth = 0  # section depth: Variable/Hypothesis are allowed inside sections only
             text = open(path).read()
+            # string literals declare nothing (a diagnostic text of sylvia reads "Parameters not allowed .."): blanked first
+            text = re.sub(r'"(?:[^"]|"")*"', lambda m: '"' + re.sub(r"[^\n]", " ", m.group(0)[1:-1]) + '"', text)
             text = re.sub(r"\(\*.*?\*\)", lambda m: " " * len(m.group(0)), text, flags=re.S)
             for ln, line in enumerate(text.splitlines(), 1):
                 if re.match(r"\s*Section\s", line):
